@@ -480,6 +480,69 @@ macro_rules! ml_api {
     }};
 }
 
+
+fn _copy_for_sweep(c: &str) -> &str { c }
+
+fn cks(h: i64, v: i64) -> i64 {
+    (h * 1000003 + (v & 0x3FFFFFFF)) % 2147483647
+}
+
+fn ref_decompose(a: i64, g: i64) -> (i64, i64) {
+    const Q: i64 = 8380417;
+    let rp = a.rem_euclid(Q);
+    let al = 2 * g;
+    let mut r0 = rp % al;
+    if r0 > al / 2 { r0 -= al; }
+    if rp - r0 == Q - 1 { (r0 - 1, 0) } else { (r0, (rp - r0) / al) }
+}
+
+/// Exhaustive sweep of a scalar function over [lo, hi): checksum of outputs (compared with the model's),
+/// number of panics, number of inputs on which the property's own predicate fails, first such input.
+fn sweep(fnid: i128, copy: &str, fixed: i64, lo: i64, hi: i64) -> Option<Vec<Out>> {
+    const Q: i64 = 8380417;
+    let g: i64 = if copy == "lvl2" { 95232 } else { 261888 };
+    let m: i64 = (Q - 1) / (2 * g);
+    let mut h = 7i64; let mut pan = 0i64; let mut bad = 0i64; let mut first = i64::MIN;
+    for a in lo..hi {
+        let r = std::panic::catch_unwind(|| -> Vec<i64> {
+            let x = a as i32;
+            match (fnid, copy) {
+                (0, _) => { let (a0, a1) = cd::rounding::power2round(x); vec![a0 as i64, a1 as i64] }
+                (1, "lvl2") => { let (a0, a1) = cd::rounding::lvl2::decompose(x); vec![a0 as i64, a1 as i64] }
+                (1, "lvl3") => { let (a0, a1) = cd::rounding::lvl3::decompose(x); vec![a0 as i64, a1 as i64] }
+                (1, _) => { let (a0, a1) = cd::rounding::lvl5::decompose(x); vec![a0 as i64, a1 as i64] }
+                (2, _) => vec![cd::reduce::caddq(x) as i64],
+                (3, _) => vec![cd::reduce::reduce32(x) as i64],
+                (4, "lvl2") => vec![cd::rounding::lvl2::use_hint(x, fixed as i32) as i64],
+                (4, "lvl3") => vec![cd::rounding::lvl3::use_hint(x, fixed as i32) as i64],
+                (4, _) => vec![cd::rounding::lvl5::use_hint(x, fixed as i32) as i64],
+                (5, "lvl2") => vec![cd::rounding::lvl2::make_hint(x, fixed as i32) as i64],
+                (5, "lvl3") => vec![cd::rounding::lvl3::make_hint(x, fixed as i32) as i64],
+                (_, _) => vec![cd::rounding::lvl5::make_hint(x, fixed as i32) as i64],
+            }
+        });
+        match r {
+            Ok(vs) => {
+                for v in &vs { h = cks(h, v + 1073741824); }
+                let ok = match fnid {
+                    0 => a == vs[1] * 8192 + vs[0] && -4096 < vs[0] && vs[0] <= 4096,
+                    1 => (vs[0], vs[1]) == ref_decompose(a, g),
+                    2 => vs[0] == a.rem_euclid(Q),
+                    3 => (vs[0] - a).rem_euclid(Q) == 0 && vs[0].abs() <= 6283009,
+                    4 => { let (r0, r1) = ref_decompose(a, g);
+                           let e = if fixed == 0 { r1 } else if r0 > 0 { (r1 + 1).rem_euclid(m) } else { (r1 - 1).rem_euclid(m) };
+                           vs[0] == e }
+                    _ => { let r = (fixed * 2 * g + a).rem_euclid(Q);
+                           vs[0] == (if ref_decompose(r, g).1 == fixed { 0 } else { 1 }) }
+                };
+                if !ok { bad += 1; if first == i64::MIN { first = a; } }
+            }
+            Err(_) => { pan += 1; h = cks(h, 1); }
+        }
+    }
+    Some(vec![oint(h), oint(pan), oint(bad), oint(if first == i64::MIN { -1 } else { first })])
+}
+
 fn shake_hist(rate128: bool, a: &[Arg]) -> Option<Vec<Out>> {
     use cd::fips202 as f;
     let mut st = f::KeccakState::default();
@@ -570,6 +633,10 @@ pub fn dispatch(f: &str, copy: &str, a: &[Arg]) -> Option<Vec<Out>> {
             let inp = bytes(&a[1]);
             cd::fips202::shake256(&mut o, n, inp, inp.len());
             Some(vec![obytes(&o)])
+        }
+        "sweep" => {
+            let id = ints(&a[0])[0];
+            sweep(id, _copy_for_sweep(copy), int(&a[1]) as i64, int(&a[2]) as i64, int(&a[3]) as i64)
         }
         "purity" => {
             let (n, e, m, f) = crate::purity::run(int(&a[0]) as u64, int(&a[1]) as usize, int(&a[2]) as usize, int(&a[3]) as usize);
